@@ -695,11 +695,15 @@ func (h *httpServerHandler) handleStreamResumption(ctx context.Context, conn *ge
 
 	// Implement resumption logic, re-sending messages based on lastEventID
 	// This needs to be handled according to the server's storage/cache mechanism
-	h.logger.Infof("Resuming session %s GET SSE stream, event ID: %s", sessionID, conn.lastEventID)
+	// (senders update conn.lastEventID under writeLock as soon as the connection is registered).
+	conn.writeLock.Lock()
+	resumedFrom := conn.lastEventID
+	conn.writeLock.Unlock()
+	h.logger.Infof("Resuming session %s GET SSE stream, event ID: %s", sessionID, resumedFrom)
 
 	// Create params for the notification
 	params := map[string]interface{}{
-		"resumedFrom": conn.lastEventID,
+		"resumedFrom": resumedFrom,
 	}
 
 	// Create NotificationParams struct
